@@ -195,6 +195,15 @@ def check_jumps(tr, j, sys_, occ, ctx, what, wit, rng):
     if ok:
         ctx.decided()
         ctx.count('rates_checked')
+    # consistency with the jump matrix: time parts can lose jumps that straddle a part edge, never gain
+    for (la, lb) in {(x, y) for x in lab for y in lab}:
+        row = rates.loc[(la, lb)]
+        implied = float(np.atleast_1d(row['rates'])[0]) * nf * part_time * n_parts
+        if implied > want_lab.get((la, lb), 0) + 1e-6:
+            ctx.check(False, f'{what}: rates({n_parts})[{la}->{lb}] implies {implied!r} jumps, the jump matrix records only {want_lab.get((la, lb), 0)}', wit)
+            break
+    else:
+        ctx.decided()
 
 
 def run_unit(unit, rng, ctx):
